@@ -890,12 +890,14 @@ End ApiTable.
 (* the grouping columns read as in the group's first member (all members agree on them up to key
    equality), and "*" reads the member list *)
 Lemma group_tuple_reading cols rows g :
+  names_unambiguous cols ->
   rows_ok cols rows = true -> In g (group_spec cols rows) ->
   exists r rest, snd g = r :: rest /\ In r rows /\
-    (forall c, In c cols -> c <> "*"%string -> lookup c (group_tuple g) = Some (column c r)) /\
+    (forall c : gkey, In c cols -> gk_name c <> "*"%string ->
+       lookup (gk_name c) (group_tuple g) = Some (key_value c r)) /\
     lookup "*"%string (group_tuple g) = Some (VArr (snd g)).
 Proof.
-  intros Hok Hin.
+  intros Hun Hok Hin.
   destruct (group_spec_first_member float_eq_laws_f64 cols rows g Hok Hin) as (r & rest & Hs & Hf).
   exists r, rest. split; [exact Hs|]. split.
   - pose proof (group_spec_members cols rows g Hin) as Hm. rewrite Hs in Hm.
@@ -903,7 +905,7 @@ Proof.
     apply filter_In in Hr. exact (proj1 Hr).
   - split.
     + intros c Hc Hne. destruct g as [k ms]. cbn [fst snd] in *. subst k.
-      exact (lookup_key_group_row cols r ms c Hc Hne).
+      exact (lookup_key_group_row cols r ms c Hun Hc Hne).
     + apply lookup_star_group_row.
 Qed.
 
